@@ -37,6 +37,11 @@ prop('C08', prefix=['c08'],
             'f64 (NaN and infinities included) or an array of 1x1..2x2 such numbers',
      outside='whether a built-in function can produce a non-finite value in the first place (the ~495 functions), numbers typed by the user or read from files, '
              'strings/booleans/errors in arrays; the check decides: if a non-finite value reaches the store, is it stored?')
+prop('C09', prefix=['c09'],
+     bounds='operator trees of depth two: (a op1 b) op2 c and a op2 (b op1 c) for every pair of + - * / ^ & = <, unary minus and percent over a binary operator, '
+            'unary minus / percent on an operand; leaves: a relative reference and the number 2; printed by to_rc_format (stored form) and to_localized_string '
+            '(display form, en) and parsed back by the real lexer + parser; value-preserving re-associations (a+(b+c), a+(b-c), a&(b&c), -(a*b), -(a/b)) are not demanded',
+     outside='deeper trees, functions, ranges, sheet-qualified references, arrays, LAMBDA/LET, implicit intersection, the xlsx export form, other languages/locales')
 prop('C11', prefix=['c11'],
      bounds='every ASCII string of length <=3 (<=4 thorough) through the real formula lexer in A1 and R1C1 mode (en locale/language) until EOF, and through the '
             'number-format lexer + parser and the date-format detector; length <=4 through column_to_number, parse_reference_a1/r1c1, is_valid_identifier, '
